@@ -114,6 +114,32 @@ pub fn check_edits(ctx: &mut Ctx, mode: Mode, p: &Pos, b: &Board, n_squares: usi
             }
         }
     }
+    // taking a man off and putting the same man back gives the board back, whatever the square
+    // (also the pawn that has just made a double step): the editing functions change nothing but
+    // the placement and what is derived from it
+    {
+        let mut squares: Vec<Sq> = (0..n_squares).map(|i| ((h.rotate_right(7) >> (6 * i)) & 63) as u8).collect();
+        if let Some(t) = p.ep {
+            squares.push(if p.stm == Col::W { t - 8 } else { t + 8 });
+        }
+        for s in squares {
+            if let Some((c, k)) = p.at(s) {
+                if k == Kind::K {
+                    continue;
+                }
+                if let Some(back) = b.clear_square(bridge::sq(s)).and_then(|r| r.set_piece(bridge::kind(k), bridge::col(c), bridge::sq(s))) {
+                    ctx.class("edit:clear_square-then-set_piece-back");
+                    let (a, o) = (observe(&back), observe(b));
+                    if back != *b || a != o {
+                        let d = bridge::obs_diff(&a, &o).unwrap_or_else(|| "boards differ under == only".into());
+                        let mut cj = case0();
+                        cj["edit"] = json!(format!("clear_square({}) then set_piece back", sq_name(s)));
+                        ctx.fail(if mode == Mode::Board { "board:edit-round-trip" } else { "hash:edit-round-trip" }, format!("clear_square({}) followed by set_piece of the same man does not give the board back: {}", sq_name(s), d), cj)?;
+                    }
+                }
+            }
+        }
+    }
     // with en-passant state recorded: edits that leave the en-passant situation alone (not the pushed
     // pawn, not the two squares behind it, and a pawn that can capture remains) keep the state, and
     // the edited board is the position with that state; the squares beside the pushed pawn first
